@@ -22,14 +22,23 @@
 (*        (has_capacity() => QueuePollEvent)                                     *)
 (*   shf  ShiftedServer._handle_shift_change                                     *)
 (*                                                                             *)
-(* Dev = {} is the protocol as the contract needs it; the deviations describe   *)
-(* what the pinned code does instead:                                           *)
+(* Dev = {} is the repaired protocol (see reports/fixes/C08_*.diff): the driver  *)
+(* keeps at most one poll in flight (sent -> fetched item started at the target, *)
+(* or the queue answered with an empty delivery), re-checks after every start    *)
+(* through a self-notification emitted behind the forwarded payload, and a shift *)
+(* change that adds capacity notifies the driver.  The deviations describe what  *)
+(* the pinned code does instead (with exactly one of the first two switched on   *)
+(* the other half is modelled by counting the events in flight / by a re-poll at *)
+(* the start, which is enough to show that each alone breaks the contract):      *)
 (*  "poll_once_per_notify"   the driver polls once per notify / completion and   *)
 (*        never again after a start, although capacity and work remain           *)
 (*  "poll_ignores_inflight"  has_capacity() does not count polls / deliveries    *)
 (*        still in the heap, so a notify-poll and a hook-poll can both be issued *)
 (*        for one free slot                                                      *)
-(*  "capacity_raise_no_wake" raising the limit does not wake the driver          *)
+(*  "capacity_raise_no_wake" a shift change that raises the capacity does not    *)
+(*        wake the driver                                                        *)
+(*  "set_limit_no_wake"      neither does DynamicConcurrency.set_limit (a passive *)
+(*        object without any reference to the driver)                            *)
 (*  "shifted_ignores_policy" ShiftedServer.__init__ says `policy or FIFOQueue()`: *)
 (*        a policy object is falsy while empty, so the configured policy (order   *)
 (*        and capacity) is replaced by an unbounded FIFO                          *)
@@ -37,7 +46,7 @@ EXTENDS Policies, TLC
 
 CONSTANTS Dev,      \* (PDev of Policies.tla stays {} here)
           KeepLog,  \* FALSE: the ghost log stays empty (pure model checking)
-          Kinds, Limits, Caps, Pols, NItems, Ticks, Hops, Svcs, Prios, Flows, ShiftTs, ShiftLs
+          Kinds, Limits, Caps, Pols, NItems, Ticks, Hops, Svcs, Prios, Flows, ShiftTs, ShiftLs, Dyns
 
 VARIABLES sc,       \* scenario [wk, lim, prm (policy parameters, see Policies.tla), W (flow weights),
                     \*           arr : Seq([t,h,s,p,f]), sh : [t,l] (one shift change, ShiftedServer),
@@ -79,9 +88,10 @@ PrmOf(k, c) == [kind |-> k, cap |-> c, pfc |-> Inf, mxf |-> Inf, thr |-> Inf, bm
 ScenarioSet ==
     { s \in [wk : Kinds, lim : Limits, prm : { PrmOf(k, c) : k \in Pols, c \in Caps }, W : {[f \in 1..NFl |-> 1]},
              arr : UNION { [1..n -> ArrRec] : n \in NItems }, sh : [t : ShiftTs, l : ShiftLs],
-             dyn : {<<>>}, rt : {0}, endt : {0}] :
+             dyn : Dyns, rt : {0}, endt : {0}] :
         /\ s.wk = "server" => s.sh = [t |-> 0, l |-> 0] /\ s.lim >= 1
         /\ s.wk = "shifted" => (\A j \in 1..Len(s.arr) : s.arr[j].s = s.arr[1].s) /\ (s.sh.t = 0 => s.sh.l = 0)
+                               /\ s.dyn = <<>>
         /\ s.prm.kind \notin {"prio", "deadline"} => \A j \in 1..Len(s.arr) : s.arr[j].p = 0
         /\ s.prm.kind \notin {"fair", "wfair"} => \A j \in 1..Len(s.arr) : s.arr[j].f = 1 }
 
@@ -95,14 +105,28 @@ Start(s) ==
     IN [heap |-> hp, ctr |-> n + Len(s.dyn), clock |-> 0, ps |-> PInit(Len(s.W)), active |-> 0, limit |-> s.lim,
         inited |-> FALSE, status |-> [j \in 1..n |-> "new"], eidx |-> zeros, lpop |-> zeros,
         log |-> <<>>, cnt |-> [accepted |-> 0, dropped |-> 0, completed |-> 0, rejected |-> 0],
-        over |-> FALSE, illegal |-> FALSE, misorder |-> FALSE, fin |-> ~AliveH(s, hp)]
+        over |-> FALSE, illegal |-> FALSE, misorder |-> FALSE, fin |-> ~AliveH(s, hp),
+        pif |-> FALSE, rchk |-> -1]       \* repaired driver: poll in flight, index of its pending re-check
 
+NoDyn == {<<>>}
+OneRaise == {<<[t |-> 1, l |-> 2]>>}       \* set_limit(2) at tick 1
 Init == \E s \in ScenarioSet : sc = s /\ m = Start(s)
 
 \* polls, deliveries and work events of this pipeline that are still in the heap
 Inflight(hp) == Cardinality({ e \in hp : e.k \in {"pol", "dlv", "wrk"} })
 CanPoll(act, lim, hp) ==
     IF Has("poll_ignores_inflight") THEN act < lim ELSE act + Inflight(hp) < lim
+\* both driver defects repaired: QueueDriver._poll_if_ready with the _poll_in_flight flag
+DriverFixed == ~Has("poll_once_per_notify") /\ ~Has("poll_ignores_inflight")
+\* mm with the poll appended (or unchanged): act/lim are the values has_capacity() sees
+PollIfReady(mm, hp, t, act, lim) ==
+    IF DriverFixed
+    THEN IF ~mm.pif /\ act < lim
+         THEN [mm EXCEPT !.heap = hp \cup {Ev(t, mm.ctr, "pol", 0, 0, FALSE)}, !.ctr = @ + 1, !.pif = TRUE]
+         ELSE [mm EXCEPT !.heap = hp]
+    ELSE IF CanPoll(act, lim, hp)
+         THEN [mm EXCEPT !.heap = hp \cup {Ev(t, mm.ctr, "pol", 0, 0, FALSE)}, !.ctr = @ + 1]
+         ELSE [mm EXCEPT !.heap = hp]
 
 Discarded(s) == s.wk = "shifted" /\ Has("shifted_ignores_policy")
 \* parameters of the policy object actually installed
@@ -142,10 +166,10 @@ OffF(s, mm, e, hp) ==
                 !.heap = hp \cup shiftEv \cup (IF wasEmpty THEN {Ev(e.t, c0, "ntf", 0, 0, FALSE)} ELSE {}),
                 !.ctr = IF wasEmpty THEN c0 + 1 ELSE c0]
 
+\* a notification from the queue (h = 0) or the driver's own re-check behind a forwarded payload (h = 1)
 NtfF(s, mm, e, hp) ==
-    IF CanPoll(mm.active, mm.limit, hp)
-    THEN [mm EXCEPT !.heap = hp \cup {Poll(e.t, mm.ctr)}, !.ctr = @ + 1]
-    ELSE [mm EXCEPT !.heap = hp]
+    LET m1 == IF DriverFixed /\ e.h = 1 /\ e.idx = mm.rchk THEN [mm EXCEPT !.pif = FALSE, !.rchk = -1] ELSE mm
+    IN PollIfReady(m1, hp, e.t, mm.active, mm.limit)
 
 \* policy.pop(): may discard expired entries (DeadlineQueue), which the policy counts itself (ps.x)
 PolF(s, mm, e, hp) ==
@@ -154,7 +178,10 @@ PolF(s, mm, e, hp) ==
         st1 == [j \in DOMAIN mm.status |-> IF j \in r.gone THEN "rejected" ELSE mm.status[j]]
         m1 == [mm EXCEPT !.ps = r.st, !.status = st1]
     IN IF x = 0
-       THEN [m1 EXCEPT !.log = Logged(mm, "pop0", 0, e.t, mm.active, mm.limit, Len(r.st.h)), !.heap = hp]
+       THEN [m1 EXCEPT !.log = Logged(mm, "pop0", 0, e.t, mm.active, mm.limit, Len(r.st.h)),
+                       \* repaired queue: an empty delivery settles the poll
+                       !.heap = IF DriverFixed THEN hp \cup {Ev(e.t, mm.ctr, "dlv", 0, 0, FALSE)} ELSE hp,
+                       !.ctr = IF DriverFixed THEN @ + 1 ELSE @]
        ELSE [Moved(m1, x, "transit") EXCEPT
                 !.misorder = @ \/ ~LeavesInOrder(s.prm.kind, mm.ps.h, x, SeqSet(r.st.h), POf(s), FOf(s)),
                 !.lpop[x] = mm.limit,
@@ -163,7 +190,11 @@ PolF(s, mm, e, hp) ==
 
 \* the payload event object is re-used: it keeps the sort index it was created with
 DlvF(s, mm, e, hp) ==
-    [mm EXCEPT !.heap = hp \cup {Ev(e.t, mm.eidx[e.i], "wrk", e.i, 0, FALSE)}]
+    IF e.i = 0 THEN [mm EXCEPT !.heap = hp, !.pif = FALSE]
+    ELSE IF DriverFixed
+    THEN [mm EXCEPT !.heap = hp \cup {Ev(e.t, mm.eidx[e.i], "wrk", e.i, 0, FALSE), Ev(e.t, mm.ctr, "ntf", 0, 1, FALSE)},
+                    !.rchk = mm.ctr, !.ctr = @ + 1]
+    ELSE [mm EXCEPT !.heap = hp \cup {Ev(e.t, mm.eidx[e.i], "wrk", e.i, 0, FALSE)}]
 
 WrkF(s, mm, e, hp) ==
     IF s.wk = "server" /\ mm.active >= mm.limit
@@ -173,7 +204,8 @@ WrkF(s, mm, e, hp) ==
              !.cnt.rejected = @ + 1,
              !.log = Logged(mm, "rjq", e.i, e.t, mm.active, mm.limit, Depth(mm)),
              !.heap = hp, !.ctr = @ + 1]
-    ELSE LET repoll == ~Has("poll_once_per_notify") /\ mm.ps.h # <<>> /\ CanPoll(mm.active + 1, mm.limit, hp) IN
+    ELSE LET repoll == ~DriverFixed /\ ~Has("poll_once_per_notify") /\ mm.ps.h # <<>>
+                       /\ CanPoll(mm.active + 1, mm.limit, hp) IN
          [Moved(mm, e.i, "inservice") EXCEPT
              !.active = @ + 1,
              !.over = @ \/ ~StartOK(Cardinality(InSOf(mm)) + 1, mm.limit, mm.lpop[e.i]),
@@ -183,31 +215,25 @@ WrkF(s, mm, e, hp) ==
              !.ctr = @ + 2]
 
 ResF(s, mm, e, hp) ==
-    LET poll == CanPoll(mm.active - 1, mm.limit, hp) IN
-    [Moved(mm, e.i, "done") EXCEPT
-        !.active = @ - 1,
-        !.cnt.completed = @ + 1,
-        !.log = Logged(mm, "fin", e.i, e.t, mm.active - 1, mm.limit, Depth(mm)),
-        !.heap = IF poll THEN hp \cup {Poll(e.t, mm.ctr)} ELSE hp,
-        !.ctr = IF poll THEN @ + 1 ELSE @]
+    LET m1 == [Moved(mm, e.i, "done") EXCEPT
+                  !.active = @ - 1,
+                  !.cnt.completed = @ + 1,
+                  !.log = Logged(mm, "fin", e.i, e.t, mm.active - 1, mm.limit, Depth(mm))]
+    IN PollIfReady(m1, hp, e.t, mm.active - 1, mm.limit)
 
-ShfF(s, mm, e, hp) ==
-    LET wake == ~Has("capacity_raise_no_wake") /\ mm.ps.h # <<>> /\ CanPoll(mm.active, s.sh.l, hp) IN
-    [mm EXCEPT
-        !.limit = s.sh.l,
-        !.log = IF s.sh.l # mm.limit THEN Logged(mm, "lim", 0, e.t, mm.active, s.sh.l, Depth(mm)) ELSE @,
-        !.heap = IF wake THEN hp \cup {Poll(e.t, mm.ctr)} ELSE hp,
-        !.ctr = IF wake THEN @ + 1 ELSE @]
-
-\* harness entity calling DynamicConcurrency.set_limit (Server); same wake-up question as a shift change
-DynF(s, mm, e, hp) ==
-    LET nl == s.dyn[e.h].l
-        wake == ~Has("capacity_raise_no_wake") /\ mm.ps.h # <<>> /\ CanPoll(mm.active, nl, hp) IN
+\* repaired: added capacity with work queued => QueueNotifyEvent to the driver
+Wake(mm, hp, t, nl, off) ==
+    LET wake == off /\ nl > mm.limit /\ mm.ps.h # <<>> IN
     [mm EXCEPT
         !.limit = nl,
-        !.log = IF nl # mm.limit THEN Logged(mm, "lim", 0, e.t, mm.active, nl, Depth(mm)) ELSE @,
-        !.heap = IF wake THEN hp \cup {Poll(e.t, mm.ctr)} ELSE hp,
+        !.log = IF nl # mm.limit THEN Logged(mm, "lim", 0, t, mm.active, nl, Depth(mm)) ELSE @,
+        !.heap = IF wake THEN hp \cup {Ev(t, mm.ctr, "ntf", 0, 0, FALSE)} ELSE hp,
         !.ctr = IF wake THEN @ + 1 ELSE @]
+
+ShfF(s, mm, e, hp) == Wake(mm, hp, e.t, s.sh.l, ~Has("capacity_raise_no_wake"))
+
+\* harness entity calling DynamicConcurrency.set_limit (Server); same wake-up question as a shift change
+DynF(s, mm, e, hp) == Wake(mm, hp, e.t, s.dyn[e.h].l, ~Has("set_limit_no_wake"))
 
 \* pop the earliest event (time, then creation index) and run its handler
 StepF(s, mm) ==
@@ -248,7 +274,7 @@ InvPartition ==
     /\ m.active = Cardinality(InS)
     /\ m.cnt.completed = Cardinality(With("done"))
     /\ Counted(Cardinality(With("rejected")), m.cnt.dropped + m.cnt.rejected + m.ps.x)
-    /\ Cardinality(With("transit")) = Cardinality({ e \in m.heap : e.k \in {"dlv", "wrk"} })
+    /\ Cardinality(With("transit")) = Cardinality({ e \in m.heap : e.k \in {"dlv", "wrk"} /\ e.i # 0 })
 InvOnce == ~m.illegal /\ (KeepLog => \A i \in 1..N : Count("sta", i) <= 1 /\ Count("fin", i) <= 1 /\ Count("pop", i) <= 1)
 \* (d) order of the configured policy, (e) its capacity
 InvOrder == ~m.misorder
